@@ -90,12 +90,12 @@ STEADY_CONSTRUCTS = {
     "if_arm_applied_lambda": "fn dsp(){\n  let k = now\n  if (k % 2.0) { (| a | { a + k })(1.0) } else { (| a | { a - k })(2.0) }\n}\n",
     "tuple_from_applied_lambda": "fn dsp(){\n  let k = now\n  let (p, q) = (| a | { (a, a + k) })(1.0)\n  p + q\n}\n",
 }
-CLOSURE_TOKENS = ("|", "mk(", "apply(")
+CLOSURE_TOKENS = ("|", "mk(", "apply(", "= dbl")
 
 
 def creates_closures_in_dsp(src):
     """static over-approximation for generated programs: a lambda, a closure maker or a
-    higher-order call occurs anywhere outside global initialisers"""
+    higher-order call or a function bound as a value occurs anywhere outside global initialisers"""
     body = "\n".join(l for l in src.split("\n") if not l.startswith("let "))
     return any(t in body for t in CLOSURE_TOKENS) or "@" in body
 
